@@ -142,7 +142,7 @@ def run(ctx):
     if ctx.build_hx():
         jobs = [("witness", 1, ctx.seed)]
         if quick:
-            jobs += [("gen", 220, ctx.seed)]
+            jobs += [("gen", 300, ctx.seed)]
         else:
             jobs += [("gen", 2500, ctx.seed + k * 1000) for k in range(6)]
         results = []
